@@ -173,7 +173,8 @@ pub fn text_rewrites(src: &str) -> Vec<Rewrite> {
                 push_kind("R3-comment-line", p, &mut out, false);
                 let mut p = texts.clone();
                 p[i] = " @@ comment\n\n".to_string();
-                push_kind("R3-comment-line", p, &mut out, false);
+                // a comment at the end of the line before the blank line: the blank line stays a separator
+                push_kind("R3-comment-line", p, &mut out, texts[i] == "\n\n");
             }
             _ => {}
         }
